@@ -739,6 +739,12 @@ func TestVerif_C06_history(t *testing.T) {
 				break
 			}
 		}
+		for _, op := range c.Ops {
+			if op.Why == "c06-chain-del" {
+				st.l("history:middle-node-of-a-one-relation-chain-deleted")
+				break
+			}
+		}
 		col.CaseH(h, c, st.NonTrivial, c06Labels(st)...)
 		for k, n := range st.L {
 			col.Label(k, n)
